@@ -4,6 +4,7 @@ import FixModel.SessionBridge
 import FixModel.Pool
 import FixModel.Framing
 import FixModel.Timer
+import FixModel.Gen
 import Std.Data.HashMap
 /-!
 # fixdriver — one operation per input line, one result per output line
@@ -47,6 +48,53 @@ def poolOp (args : List String) : Option String :=
     | _, _ => none
   | _ => none
 
+/-! ### generator schema parsing -/
+
+def unTilde (s : String) : String := if s = "~" then "" else s
+
+def pStr : P String := do let t ← tok; pure (unTilde t)
+
+def pMemberF : Nat → P Member
+  | 0 => failure
+  | fuel + 1 => do
+    let k ← tok
+    let name ← pStr
+    let req ← tok
+    let n ← pNat
+    let ms ← repeatP (pMemberF fuel) n
+    let kind ← (match k with | "f" => some MKind.field | "g" => some MKind.group | "c" => some MKind.component | _ => none : Option MKind)
+    pure { kind, name, required := req == "Y", members := ms }
+
+def pMembers : P (List Member) := do
+  let ts ← get
+  let n ← pNat
+  repeatP (pMemberF (ts.length + 1)) n
+
+def pSchema : P Schema := do
+  let typ ← pStr; let major ← pStr; let minor ← pStr
+  let f ← tok; if f ≠ "F" then failure
+  let nf ← pNat
+  let fields ← repeatP (do
+    let number ← pStr; let name ← pStr; let type ← pStr
+    let nv ← pNat
+    let values ← repeatP (do let e ← pStr; let d ← pStr; pure (e, d)) nv
+    pure ({ number, name, type, values } : FieldDef)) nf
+  let y ← tok; if y ≠ "Y" then failure
+  let ny ← pNat
+  let types ← repeatP (do let a ← pStr; let b ← pStr; pure (a, b)) ny
+  let h ← tok; if h ≠ "H" then failure
+  let hm ← pMembers
+  let r ← tok; if r ≠ "R" then failure
+  let tm ← pMembers
+  let m ← tok; if m ≠ "M" then failure
+  let nm ← pNat
+  let messages ← repeatP (do let name ← pStr; let mt ← pStr; let ms ← pMembers; pure ({ name, msgType := mt, members := ms } : Comp)) nm
+  let c ← tok; if c ≠ "C" then failure
+  let nc ← pNat
+  let components ← repeatP (do let name ← pStr; let ms ← pMembers; pure ({ name, members := ms } : Comp)) nc
+  pure { typ, major, minor, header := { name := "Header", members := hm }, trailer := { name := "Trailer", members := tm },
+         messages, components, fields, types }
+
 def stepLine (line : String) : String :=
   match (line.splitOn " ").filter (· ≠ "") with
   | [] => "bad-op"
@@ -72,6 +120,10 @@ def stepLine (line : String) : String :=
             | some v => "some " ++ dBytes v
             | none => "none")) args
       | "pool" => poolOp args
+      | "gen" => runP (do
+          let sc ← pSchema
+          let lines := (renderGen (gen sc)).toArray.qsort (· < ·) |>.toList
+          pure (" ;; ".intercalate lines)) args
       | "timer" =>
         match args.mapM String.toNat? with
         | some (t :: p :: start :: rs) =>
